@@ -64,13 +64,14 @@ const (
 
 // World is the fixed cast of a DPoS history: parameters, producers, voters.
 type World struct {
-	Params   *config.Configuration
-	Owner    []*Key // producer owner keys
-	Node     []*Key // producer node keys
-	NewNode  []*Key // node keys used by "update node key"
-	Voter    []*Key
-	CRCSeat  []*Key
-	lockOnce sync.Once
+	Params  *config.Configuration
+	Owner   []*Key // producer owner keys
+	Node    []*Key // producer node keys
+	NewNode []*Key // node keys used by "update node key"
+	Voter   []*Key
+	CRCSeat []*Key
+	sigMu   sync.Mutex
+	sigs    map[string][]byte
 }
 
 // NewWorld builds the parameters (shared read-only by every instance of the process).
@@ -111,6 +112,24 @@ func NewWorld() *World {
 	p.DPoSConfiguration.SponsorsFilePath = "/nonexistent/verif-sponsors"
 	w.Params = p
 	return w
+}
+
+// signOnce signs data with key k once per process: crypto.Sign is randomised, and the payload
+// hash of the evidence (recorded in SpecialTxHashes) covers the signatures, so every instance
+// of a run must see the same bytes.
+func (w *World) signOnce(k *Key, data []byte) []byte {
+	id := k.Label + "/" + string(data)
+	w.sigMu.Lock()
+	defer w.sigMu.Unlock()
+	if s, ok := w.sigs[id]; ok {
+		return s
+	}
+	if w.sigs == nil {
+		w.sigs = map[string][]byte{}
+	}
+	s := k.Sign(data)
+	w.sigs[id] = s
+	return s
 }
 
 // Inst is one fresh DPoS state machine plus the harness-side chain it is fed from.
@@ -338,7 +357,7 @@ func (in *Inst) TxIllegalProposal(h uint32, node *Key) interfaces.Transaction {
 		buf := new(bytes.Buffer)
 		hdr.Serialize(buf)
 		p := payload.DPOSProposal{Sponsor: node.PK, BlockHash: hdr.Hash(), ViewOffset: 0}
-		p.Sign = node.Sign(p.Data())
+		p.Sign = in.W.signOnce(node, p.Data())
 		return payload.ProposalEvidence{Proposal: p, BlockHeader: buf.Bytes(), BlockHeight: h - 1}
 	}
 	a, b := mk(1), mk(2)
